@@ -55,6 +55,8 @@ def gen(rng, tier):
             break
     if rng.random() < 0.12:
         ast = sg.add_near_duplicate(rng, ast)      # two requirements that differ in a late decimal of one constant
+    if rng.random() < 0.2:
+        ast = sg.add_operator_twin(rng, ast, set(ops))                  # the same operands under another operator (log/pow ...)
     defs, top = sg.modularize(rng, ast, max_subs=3)
     if rng.random() < 0.1:
         # an alias sub-specification: a bare constant or a bare variable with a name of its own
